@@ -11,7 +11,8 @@ LEVEL = "model_checking"
 
 def syntax_part(ck, specs_file):
     if specs_file:
-        ck.run_sharded("syntax-mutants", specs_file, "tla/mutants.ndjson", timeout=1800)
+        ck.run_sharded("syntax-mutants", specs_file, "tla/mutants.ndjson", timeout=1800,
+                       extra=["-long-specs", "1" if ck.tier == "quick" else "3", "-long-sizes", "1" if ck.tier == "quick" else "2"])
     muts = {m["id"]: m for m in vp.read_ndjson(os.path.join(ck.work, "tla", "mutants.ndjson"))}
     r = ck.tlc("SyntaxErr", timeout=3000)
     if not r.ok:
